@@ -70,6 +70,7 @@ def main():
         res = {}
         for pid in plist:
             env = dict(os.environ)
+            env["VERIF_EARLY_EXIT"] = "1"   # stop the workers as soon as one of them reports a violation
             if seed:
                 env["VERIF_SEED"] = seed
             t0 = time.time()
